@@ -62,7 +62,7 @@ def task_mutant(args):
             new, desc = mutate.apply(fnode, point)
             desc_box['d'] = desc
             return new
-        rep = verify.verify_function(w, qual, timeout_ms=timeout_ms, cover=False, mutate=mut, skip=skip)
+        rep = verify.verify_function(w, qual, timeout_ms=timeout_ms, cover=False, mutate=mut, skip=skip, stop_on_fail=True)
         rep['obligations'] = [o for o in rep['obligations'] if o['result'] != 'known-finding']
         bad = [o for o in rep['obligations'] if o['result'] != 'proved']
         caught = rep['status'] != 'ok' or bool(bad)
@@ -135,7 +135,14 @@ def run_property(prop_id, tier='quick', seed=0, jobs=None):
                 getattr(res, name.lower()).extend(out if isinstance(out, list) else [out])
         # merge shards of the same function
         merged = {}
-        for rep in async_v.get():
+        budget = getattr(mod, 'WALL_BUDGET_S', {}).get(tier, 1500 if tier == 'quick' else 4 * 3600)
+        try:
+            vres = async_v.get(timeout=budget)
+        except Exception as ex:     # a worker died (solver crash) or the budget was exceeded: engine failure, never a hang
+            pool.terminate()
+            res.errors.append(f'verification workers did not finish: {type(ex).__name__}: {ex}')
+            vres = []
+        for rep in vres:
             m = merged.get(rep['function'])
             if m is None:
                 merged[rep['function']] = rep
@@ -149,7 +156,12 @@ def run_property(prop_id, tier='quick', seed=0, jobs=None):
         for rep in res.functions:
             if rep['status'] == 'ok' and 'n_generated' in rep and len(rep['obligations']) != rep['n_generated']:
                 res.errors.append(f"{rep['function']}: {len(rep['obligations'])} obligations solved but {rep['n_generated']} generated")
-        res.mustfail = async_m.get() if async_m else []
+        try:
+            res.mustfail = async_m.get(timeout=budget) if async_m else []
+        except Exception as ex:
+            pool.terminate()
+            res.mustfail = []
+            res.errors.append(f'must-fail workers did not finish: {type(ex).__name__}: {ex}')
     return finish(mod, res, kf)
 
 
